@@ -35,6 +35,7 @@ def check(ctx):
     D = SC + "::Scope::drop_all"
     ctx.guarded(D, Ev("ret"), variant_of_call(r"(std|core)::option::Option::take", "None"), "scope/drop-all-runs-every-dtor", "drop_all returns only when no deferred join is left",
                 pred_label="edge `dtors.take()` is None")
+    shared.scope_dtor_chain_rules(ctx)
     # spawn_impl defers a join of the coroutine it spawned
     SI = SC + "::Scope::spawn_impl"
     f = ctx.fn("R-PAIR", SI, "scope/spawn-defers-join")
@@ -84,14 +85,25 @@ def check(ctx):
                 "Drop for Cqueue returns only after poll reported Finished", pred_label="edge `poll()` is Err(Finished)")
     f = ctx.fn("R-ORDER", CD, "cqueue/cancel-then-drain")
     if f is not None:
-        cl = [g for g in ctx.prog.closures_of(f) if ctx.an.may(g, Call(r"may::coroutine_impl::Coroutine::cancel"))]
-        ok = len(cl) == 1
+        # the cancel loop may be a combinator with a closure (iter().fold / for_each) or a plain `for`: look at every body
+        CANCEL = Call(r"may::coroutine_impl::Coroutine::cancel", transitive=False)
+        bodies = [g for g in [f] + ctx.prog.closures_of(f) if ctx.an.sites(g, CANCEL, "must")]
+        ok = len(bodies) == 1
         if ok:
-            g = cl[0]
-            ctx.guarded(g.id, Call(r"may::coroutine_impl::Coroutine::cancel", transitive=False), call_false(r"may::join::JoinHandle::is_done"), "cqueue/cancel-only-unfinished",
+            ctx.guarded(bodies[0].id, CANCEL, call_false(r"may::join::JoinHandle::is_done"), "cqueue/cancel-only-unfinished",
                         "only unfinished selectors are cancelled", pred_label="edge `is_done()` is false")
         ctx.ob("R-ORDER", CD, "cqueue/cancels-selectors", ok, "Drop for Cqueue cancels the unfinished select coroutines before draining" if ok else "Drop for Cqueue no longer cancels its select coroutines", f.where())
-        ctx.order(CD, Call(r"std::iter::Iterator::fold|.*Iterator.*::fold|.*::for_each"), POLL, "cqueue/cancel-then-drain", "selectors are cancelled before the drain loop waits for them")
+        cs = ctx.an.sites(f, Call(r"may::coroutine_impl::Coroutine::cancel", transitive=True), "may")
+        ps = ctx.an.sites(f, POLL, "may")
+        if not cs or not ps:
+            ctx.missing("R-ORDER", CD, "cqueue/cancel-then-drain", "cancel sites=%d poll sites=%d" % (len(cs), len(ps)))
+        else:
+            after_p = ctx.an.reach(f, [q for p0 in ps for q in ctx.an.after(f, p0)])
+            late = [c for c in cs if c in after_p]
+            dead = [c for c in cs if not any(p0 in ctx.an.reach(f, ctx.an.after(f, c)) for p0 in ps)]
+            okc = not late and not dead
+            ctx.ob("R-ORDER", CD, "cqueue/cancel-then-drain", okc, "selectors are cancelled before the drain loop waits for them (no cancel after the first poll)" if okc else
+                   "Drop for Cqueue polls before it has cancelled its select coroutines: the drain waits for selectors that nobody told to stop", f.where((late or dead or sorted(cs))[0]))
     # a selector panic surfacing in the drain must not leave the drop before Finished
     ctx.guarded(CD, Call(r"std::panic::resume_unwind", transitive=False), lambda a: a.kind == "variant" and a.name == "Finished", "cqueue/reraise-only-after-finished",
                 "Drop for Cqueue re-raises a selector panic only after the drain reported Finished (all select coroutines have ended)", pred_label="edge `poll()` is Err(Finished)")
